@@ -239,7 +239,7 @@ def run_one(kind, stream, cuts, idle_steps, settings, cb, split_at=None, resume_
             if idle_steps == 0 and len(cuts) < 300:
                 await asyncio.sleep(0)
         await asyncio.sleep(5.0 + 0.03 * len(stream) / 13)     # let a slow callback (0.02 s per message) drain the queue
-        await sim.call("close")
+        await sim.close_guarded()
     if clock_jump:
         from ..lib import decoder_clock_box
         with decoder_clock_box() as box:
